@@ -232,7 +232,24 @@ func addVirtualTableHelper(vTableMap map[string]struct{}, orgid int64) (bool, er
 	return true, nil
 }
 
+// IsValidIndexName reports whether name can be used as an index name. Index names
+// become directory and file names under the data directory, so a name must not be
+// able to address anything outside of it.
+func IsValidIndexName(name string) bool {
+	if name == "" || name == "." || name == ".." {
+		return false
+	}
+	if strings.ContainsAny(name, "/\\\x00") {
+		return false
+	}
+	return true
+}
+
 func AddVirtualTable(tname *string, orgid int64) error {
+	if tname == nil || !IsValidIndexName(*tname) {
+		return fmt.Errorf("AddVirtualTable: invalid index name")
+	}
+
 	vTableMap := make(map[string]struct{})
 	vTableMap[*tname] = struct{}{}
 
